@@ -8,6 +8,7 @@ import NodisVerif.Driver.ProtoOps
 import NodisVerif.Driver.LinkedListOps
 import NodisVerif.Model.Feed
 import NodisVerif.Driver.PatchOps
+import NodisVerif.Model.FeedWire
 open NodisVerif
 
 structure DState where
@@ -80,7 +81,13 @@ def step (d : DState) (line : String) : DState × String :=
       let recs := ((d.feeds.find? (·.1 == d.cur)).map (·.2)).getD []
       let d := { d with feeds := d.feeds.filter (·.1 != d.cur) }
       let rsv : Server := ((d.inst.find? (·.1 == dst)).map (·.2)).getD {}
-      if !(recs.all Feed.wireOk) then (d, "DECODE-ERROR") else
+      -- the records travel as bytes: toWire, ProtoWire.encodeOp, ProtoWire.decodeOp, fromWire (Model/FeedWire.lean);
+      -- the older field-level predicate `Feed.wireOk` (Lean's own UTF-8 validator) must give the same verdict
+      if recs.any (fun r => Feed.wireOk r != (Feed.viaWire r).isSome) then (d, "WIRE-MODELS-DISAGREE") else
+      if !(recs.all fun r => (Feed.viaWire r).isSome) then (d, "DECODE-ERROR") else
+      -- hypothesis of `C20.replicate_through_wire`, checked on every record that is shipped
+      if !(recs.all Feed.wireNormal) then (d, "WIRE-NOT-NORMAL") else
+      let recs := recs.filterMap Feed.viaWire
       (match Feed.applyAll { rsv.store with signalled := [], held := [], hung := false } now recs with
        | none => (d, "APPLY-ERROR")
        | some r =>
